@@ -27,13 +27,21 @@ func (c *Ctx) writerCalls() []writerCall {
 					continue
 				}
 				g := staticCallee(call)
-				if g == nil || !r.isDocWriter(c.declared(g)) {
+				if g == nil {
 					continue
 				}
 				g = c.declared(g)
-				di, ki := c.docParamIndex(g), c.keyParamIndex(g)
+				di, ki := -1, -1
+				if w, ok := r.DocWrappers[g]; ok {
+					di, ki = w[0], w[1]
+				} else if r.isDocWriter(g) {
+					di, ki = c.docParamIndex(g), c.keyParamIndex(g)
+				}
 				if di < 0 || ki < 0 {
 					continue
+				}
+				if _, inWrapper := r.DocWrappers[fn]; inWrapper {
+					continue // judged at the call sites of the wrapper
 				}
 				out = append(out, writerCall{fn, call, g, call.Common().Args[di], call.Common().Args[ki]})
 			}
